@@ -112,7 +112,7 @@ def gen_seq_case(rng, cid, nops):
     return lines
 
 
-LETTERS = "cabmnrqsuv"
+LETTERS = "cabmnrqsuvQwxyzCKABM"
 
 
 def gen_conc_line(rng, small=False):
@@ -120,7 +120,7 @@ def gen_conc_line(rng, small=False):
     progs = []
     for _ in range(n):
         L = rng.choice([0, 1, 2, 3, 4, 6]) if not small else rng.choice([0, 1, 2])
-        w = rng.choice(["cabmnrqsuv", "cccab", "ambnrq", "csq"])
+        w = rng.choice([LETTERS, LETTERS, "cccab", "ambnrq", "csq", "QxKzy", "QKxyzr", "CABMKxz", "Qxq"])
         progs.append("".join(rng.choice(w) for _ in range(L)) or "-")
     style = rng.randrange(3)
     ln = rng.choice([0, 5, 20, 60])
@@ -210,6 +210,19 @@ class C12(flow.Spec):
                 fam.append(f"conc {p} {','.join(map(str, sched))}")
         for i, ch in enumerate([fam[j:j + 27] for j in range(0, len(fam), 27)]):
             cs.append([f"case concx{i}"] + ch)
+        # the unify() window: a thread that holds a single handle tests unique(), the other thread(s)
+        # release everything before / between / after its copy and its decrement.  Every binary
+        # schedule prefix (round-robin afterwards) for a few two-thread programs, ternary for three threads.
+        fam = []
+        ln2, ln3 = (8, 5) if quick else (11, 7)
+        for p in ["Qx,-", "Qx,Q", "Ky,c", "qz,K"]:
+            for code in range(2 ** ln2):
+                fam.append(f"conc {p} {','.join(str((code >> j) & 1) for j in range(ln2))}")
+        for p in ["Qx,Q,K", "qz,Kx,-"]:
+            for code in range(3 ** ln3):
+                fam.append(f"conc {p} {','.join(str((code // 3 ** j) % 3) for j in range(ln3))}")
+        for i, ch in enumerate([fam[j:j + 64] for j in range(0, len(fam), 64)]):
+            cs.append([f"case concu{i}"] + ch)
         st = ["case stress"]
         for i in range(3 if quick else 12):
             st.append(f"stress {rng.choice([2, 3, 3])} {5000 if quick else 40000} {rng.randrange(1 << 30)}")
